@@ -75,7 +75,7 @@ let table : (string * (sexp -> sexp)) list = [
   ("C07", run_C07);
   ("C08", run_C08);
   ("C06", run_C06);
-  ("C01", run_C01S);
+  ("C01", run_C01T);
   ("C02", run_C02);
   ("C05", run_C05);
   ("C03", run_C03);
